@@ -10,6 +10,7 @@ from ..core import AnalysisError, FUNC, call_attr, calls_in, const, dotted, is_c
 from .c01 import field_rules
 
 EXPLANATION = [
+    "C18.bytes-not-via-str: no __bytes__ of a bumble.data_types class goes through str(self) / repr(self) / f'{self}' (their __str__ is the debug rendering).",
     'C18.sdp-int-widths: the four SDP integer conversions (parse / serialise x unsigned / signed) handle exactly the widths of the integer size-index table, 1 / 2 / 4 / 8 / 16 octets.',
     'C18.avdtp-start-layout: avdtp: the assembler reads the signal identifier and the packet count of a START packet at the octet indices at which Protocol.send_message writes them.',
     'C18.no-constructor-range: data types of bumble.data_types whose from_bytes passes struct.unpack results to the constructor have no raising constructor / __post_init__ (every value of the field widths is representable).',
@@ -1071,7 +1072,27 @@ def sdp_int_widths(ctx):
         R.check(w == table, rule, f'bumble.sdp.DataElement | {label}', f'widths {w}', f'{label} handles widths {w} but an SDP integer may be {table} octets wide: a well-formed element of a missing width cannot be parsed / built', p.loc(ser))
 
 
+def bytes_not_via_str(ctx):
+    """The str-based data types override __str__ with the debug rendering (`Uri('...')`): their __bytes__ encodes the value
+    itself (`self.encode(...)`), never `str(self)` / an f-string of self."""
+    R, p = ctx.r, ctx.p
+    rule = 'C18.bytes-not-via-str'
+    n = 0
+    for cn, ci in sorted(p.classes.items()):
+        if not cn.startswith('bumble.data_types.') or '__bytes__' not in ci.methods:
+            continue
+        has_str = any('__str__' in x.methods for x in p.mro(cn) if x.qual.startswith('bumble.'))
+        if not has_str:
+            continue
+        n += 1
+        fn = ci.methods['__bytes__']
+        bad = [c for c in calls_in(fn) if dotted(c.func) in ('str', 'repr', 'format') and c.args and norm(c.args[0]) == 'self'] + [v for v in ast.walk(fn) if isinstance(v, ast.FormattedValue) and norm(v.value) == 'self']
+        R.check(not bad, rule, f'{cn}.__bytes__', 'encodes the value itself', f'{ci.name}.__bytes__ goes through `{norm(bad[0])[:30] if bad else ""}`, and str() of these types is the debug rendering (label and quotes): the structure is serialised as that text, not as its value', p.loc(bad[0]) if bad else p.loc(fn))
+    R.check(n >= 10, rule, 'bumble.data_types | types with __bytes__ and an overridden __str__', f'{n}', f'only {n} found')
+
+
 RULES = [
+    ('C18.bytes-not-via-str', bytes_not_via_str),
     ('C18.sdp-int-widths', sdp_int_widths),
     ('C18.avdtp-start-layout', avdtp_start_layout),
     ('C18.no-constructor-range', no_constructor_range),
